@@ -173,3 +173,14 @@ Lemma checkTimeF_edge_ok :
   checkTimeF (60060 + 30 * 30000) 30000 31502 3600 (Some 500) = TvOk /\
   checkTimeF (60060 + 30 * 30000) 30000 31501 3600 (Some 500) = TvTooEarly 1.
 Proof. repeat split; vm_compute; reflexivity. Qed.
+
+(** After January 2038 (2^31 s) float64 seconds are 4.8e-7 s apart: adding the start time and subtracting
+    an offset that is no binary fraction round by up to 2.4e-7 s each, so the microsecond the comparison
+    works with can come out one too late. Segment 345291764 of the 29.97 asset with start 1.6e9 s and an
+    offset of 0.1 s ends at 2291274113.53 s; it is advertised for 2291274113430 ms, where the exact test
+    accepts it and the float64 test refuses it "too early by 0 ms" (it accepts one millisecond later). *)
+Lemma checkTimeF_after_2038 :
+  checkTime  (345291765 * 60060 + 1600000000 * 30000) 30000 2291274113430 60 (Some 100) = TvOk /\
+  checkTimeF (345291765 * 60060 + 1600000000 * 30000) 30000 2291274113430 60 (Some 100) = TvTooEarly 0 /\
+  checkTimeF (345291765 * 60060 + 1600000000 * 30000) 30000 2291274113431 60 (Some 100) = TvOk.
+Proof. repeat split; vm_compute; reflexivity. Qed.
